@@ -148,7 +148,9 @@ def check(case):
                 ("ratio", "between_groups"): _div(mn, mx),
             }
             rs = [_div(v, ov) for v in vals]
-            clean = all(math.isfinite(r) and r >= 0 for r in rs)
+            # fold(r) = min(r, 1/r): r > 0 -> min(r, 1/r); r = 0 -> 0; r <= -1 -> r (there the statement and the documented
+            # "express as a number below 1" coincide); only r in (-1, 0) is ambiguous (statement 1/r, documentation r)
+            clean = all(math.isfinite(r) and (r >= 0 or r <= -1) for r in rs)
             all_nan = all(math.isnan(r) for r in rs)
             if ov == 0 or mx == 0:
                 tags.add("zero_denominator")
@@ -167,7 +169,7 @@ def check(case):
                 got_to = results[("ratio", "to_overall", errors)][ck][j]
                 M.need(np.ndim(got_to) == 0, f"ratio(to_overall) {where} not scalar: {got_to!r}")
                 if clean:
-                    folded = [min(r, _div(1.0, r)) if r > 0 else 0.0 for r in rs]
+                    folded = [min(r, _div(1.0, r)) if r > 0 else (0.0 if r == 0 else r) for r in rs]
                     e = min(folded)
                     M.need(M.close(got_to, e), f"ratio(to_overall,{errors}) {where} = {got_to!r}, expected {e!r}; r = {rs}")
                 elif all_nan:
